@@ -21,7 +21,7 @@ def shapes(tier):
     if tier == "thorough":
         for tol in (False, True):
             for clock in itertools.product(("ok", "lag"), repeat=3):
-                for st in steppers(3, dls=("abs",)):
+                for st in steppers(2, dls=("abs",)):
                     J.append(job([S("once", 1), S("periodic", 2, dl="rel"), S("once", 3, origin=1)] + st, tolerance=tol, clock=list(clock), max_steps=3))
     return dedup(J)
 
